@@ -40,11 +40,22 @@ def keywords(fmts, labels, what):
     return kws
 
 
+FLUSH_TRAILER = {}
+
+
 def header_kw(cls, what):
     """the 'user %s' / 'channel %s' / 'network %s' record header of a flush method"""
     fl = find_def(tree('src/ircdb.py'), 'flush', cls)
     c = [n.value for n in ast.walk(fl) if isinstance(n, ast.Constant) and isinstance(n.value, str) and '%s' in n.value
          and 'flush' not in n.value]
+    if cls == 'UsersDictionary' and len(c) == 2:
+        # the trailer that stores nextId, written after the loop over the users
+        src0 = ast.unparse(fl)
+        c = sorted(c, key=lambda x: x == 'nextid %s')
+        need(c[1] == 'nextid %s' and "fd.write('nextid %s' % self.nextId)\n            fd.write(os.linesep)\n            fd.close()" in src0,
+             'UsersDictionary.flush trailer changed: %r' % c)
+        FLUSH_TRAILER['nextid'] = True
+        c = c[:1]
     need(len(c) == 1 and c[0].endswith(' %s') and ' ' not in c[0][:-3], what + ' flush header: %r' % c)
     src = ast.unparse(fl)
     need('sorted(self.' in src and "indent='  ')" in src, what + ' flush: sorted()/indent shape changed')
@@ -192,12 +203,21 @@ def gen_T16():
     uw = keywords(write_formats(find_def(d, 'preserve', 'IrcUser')), USER_W, 'IrcUser.preserve')
     cw = keywords(write_formats(find_def(d, 'preserve', 'IrcChannel')), CHAN_W, 'IrcChannel.preserve')
     nw = keywords(write_formats(find_def(d, 'preserve', 'IrcNetwork')), NET_W, 'IrcNetwork.preserve')
+    FLUSH_TRAILER.clear()
     hu, hc, hn = header_kw('UsersDictionary', 'users'), header_kw('ChannelsDictionary', 'channels'), \
         header_kw('NetworksDictionary', 'networks')
     ru, au = handlers(find_class(d, 'IrcUserCreator'))
     rc, ac = handlers(find_class(d, 'IrcChannelCreator'))
     rn, an = handlers(find_class(d, 'IrcNetworkCreator'))
+    reader_nextid = 'nextid' in ru
+    if reader_nextid:
+        nb = ast.unparse(find_def(d, 'nextid', 'IrcUserCreator'))
+        need(nb.rstrip().endswith('self.users.nextId = max(self.users.nextId, int(rest))') and nb.count('\n') == 1,
+             'IrcUserCreator.nextid changed: ' + nb)
+        ru = [x for x in ru if x != 'nextid']
     need(sorted(ru) == sorted(USER_R), 'IrcUserCreator handlers changed: %r' % ru)
+    need('self.nextId = max(self.nextId, user.id)' in ast.unparse(find_def(d, 'setUser', 'UsersDictionary'))
+         and 'nextId' not in ast.unparse(find_def(d, 'delUser', 'UsersDictionary')), 'nextId handling in setUser/delUser changed')
     need(sorted(rc) == sorted(CHAN_R), 'IrcChannelCreator handlers changed: %r' % rc)
     need(sorted(rn) == sorted(NET_R), 'IrcNetworkCreator handlers changed: %r' % rn)
     # unpreserve.Reader.read: the statements the model mirrors
@@ -298,6 +318,16 @@ def gen_T16():
         out += 'Definition WC_%s : list N := %s.  (* %s *)\n' % (lab, cstr(kw), kw)
     for lab, kw in zip(NET_W, nw):
         out += 'Definition WN_%s : list N := %s.  (* %s *)\n' % (lab, cstr(kw), kw)
+    fin = ast.unparse(find_def(d, 'finish', 'IrcUserCreator'))
+    need(fin.startswith('def finish(self):\n    if self.u.name:') and fin.count('IrcUserCreator.u = None') in (1, 2), 'IrcUserCreator.finish changed: ' + fin)
+    finish_clears = fin.rstrip().endswith('elif self.u.id is None:\n        IrcUserCreator.u = None')
+    need(finish_clears == (fin.count('IrcUserCreator.u = None') == 2) and ('elif' in fin) == finish_clears, 'IrcUserCreator.finish tail changed: ' + fin)
+    out += 'Definition FINISH_CLEARS_PRISTINE : bool := %s.  (* finish() resets IrcUserCreator.u when the record has neither name nor id *)\n' % (
+        'true' if finish_clears else 'false')
+    out += '(* nextId: does flush store it in a trailing `nextid N` line, does the reader have the nextid command? *)\n'
+    out += 'Definition FLUSH_WRITES_NEXTID : bool := %s.\nDefinition READER_HAS_NEXTID : bool := %s.\n' % (
+        'true' if FLUSH_TRAILER.get('nextid') else 'false', 'true' if reader_nextid else 'false')
+    out += 'Definition K_nextid : list N := %s.\n' % cstr('nextid')
     out += '(* reader: method names of the Creator classes, and the other lower-case attributes hasattr() finds *)\n'
     for lab in USER_R:
         out += 'Definition RU_%s : list N := %s.\n' % (lab, cstr(lab))
